@@ -81,10 +81,12 @@ def crafted_items(tier):
     # more than 128 bytes follow, so the decoder's fast path sees it
     used = [65, 66, 67]
     syms = [1] + [0] * 31 + [2, 3, 2, 3, 4]
-    wrap = bzfmt.block_writer(syms, used, 0, [[2, 2, 2, 3, 3], [2, 2, 2, 3, 3]], [0], 0x12345678)
+    # (the stored CRC is that of the block WITHOUT the 32 run symbols: a decoder whose counter wraps sees a consistent file)
+    shadow_crc = bzfmt.bzcrc(bzfmt.symbols_plain([2, 3, 2, 3, 4], used, 0)[2])
+    wrap = bzfmt.block_writer(syms, used, 0, [[2, 2, 2, 3, 3], [2, 2, 2, 3, 3]], [0], shadow_crc)
     fill1, c1 = bzfmt.simple_block(bytes((i * 37 + i // 5) % 256 for i in range(700)))
     fill2, c2 = bzfmt.simple_block(bytes((i * 11) % 253 for i in range(500)))
-    out.append(Item("crafted:run_wraps_32_bits", bzfmt.stream_bytes([(wrap, 0x12345678), (fill1, c1), (fill2, c2)], 9), False, None, origin="bzfmt.block_writer"))
+    out.append(Item("crafted:run_wraps_32_bits", bzfmt.stream_bytes([(wrap, shadow_crc), (fill1, c1), (fill2, c2)], 9), False, None, origin="bzfmt.block_writer"))
     # a later stream with a lower level than the first must be judged by its own level
     bwa, crca = bzfmt.simple_block(b"level nine stream\n" * 10)
     s9 = bzfmt.stream_bytes([(bwa, crca)], 9)
